@@ -218,9 +218,52 @@ impl rand::RngCore for ConstRng {
     }
 }
 
+/// the ports' random source: a fixed sequence per port (splitmix64 from the port number), so that every random
+/// timer duration is reproducible and *which* draw a duration comes from is observable (a call that consumes a
+/// draw it should not shifts every later duration)
+pub struct SeqRng(pub u64);
+impl SeqRng {
+    fn next(&mut self) -> u64 {
+        self.0 = self.0.wrapping_add(0x9e37_79b9_7f4a_7c15);
+        let mut z = self.0;
+        z = (z ^ (z >> 30)).wrapping_mul(0xbf58_476d_1ce4_e5b9);
+        z = (z ^ (z >> 27)).wrapping_mul(0x94d0_49bb_1331_11eb);
+        z ^ (z >> 31)
+    }
+}
+impl rand::RngCore for SeqRng {
+    fn next_u32(&mut self) -> u32 {
+        (self.next() >> 32) as u32
+    }
+    fn next_u64(&mut self) -> u64 {
+        self.next()
+    }
+    fn fill_bytes(&mut self, dest: &mut [u8]) {
+        for b in dest.iter_mut() {
+            *b = self.next() as u8;
+        }
+    }
+    fn try_fill_bytes(&mut self, dest: &mut [u8]) -> Result<(), rand::Error> {
+        self.fill_bytes(dest);
+        Ok(())
+    }
+}
+
+thread_local! {
+    /// exact durations of the timer actions of the call in progress: (port, kind, nanoseconds)
+    static RAW_TIMERS: RefCell<Vec<(usize, &'static str, u128)>> = const { RefCell::new(Vec::new()) };
+    /// ... and of the last completed `exec`
+    static LAST_RAW_TIMERS: RefCell<Vec<(usize, &'static str, u128)>> = const { RefCell::new(Vec::new()) };
+}
+
+/// the exact timer durations the last executed op asked for (the observation prints randomised ones as `rand`)
+pub fn last_raw_timers() -> Vec<(usize, &'static str, u128)> {
+    LAST_RAW_TIMERS.with(|l| l.borrow().clone())
+}
+
 type Acc = Option<Vec<ClockIdentity>>;
-type RPort = Port<'static, Running, Acc, ConstRng, RecClock, RecFilter, RecMutex>;
-type BPort = Port<'static, InBmca, Acc, ConstRng, RecClock, RecFilter, RecMutex>;
+type RPort = Port<'static, Running, Acc, SeqRng, RecClock, RecFilter, RecMutex>;
+type BPort = Port<'static, InBmca, Acc, SeqRng, RecClock, RecFilter, RecMutex>;
 
 enum Slot {
     Running(RPort),
@@ -363,7 +406,21 @@ fn tlv_type_from_debug(s: &str) -> u16 {
 }
 
 fn collect(k: usize, it: PortActionIterator<'_>) -> Vec<String> {
-    it.map(|a| format!("P{k}:{}", action_str(a))).collect()
+    it.map(|a| {
+        let raw = match &a {
+            PortAction::ResetAnnounceTimer { duration } => Some(("ann", *duration)),
+            PortAction::ResetSyncTimer { duration } => Some(("sync", *duration)),
+            PortAction::ResetDelayRequestTimer { duration } => Some(("delay", *duration)),
+            PortAction::ResetAnnounceReceiptTimer { duration } => Some(("rcpt", *duration)),
+            PortAction::ResetFilterUpdateTimer { duration } => Some(("filt", *duration)),
+            _ => None,
+        };
+        if let Some((kind, d)) = raw {
+            RAW_TIMERS.with(|r| r.borrow_mut().push((k, kind, d.as_nanos())));
+        }
+        format!("P{k}:{}", action_str(a))
+    })
+    .collect()
 }
 
 fn clock8(s: &str) -> Option<[u8; 8]> {
@@ -565,7 +622,7 @@ impl InstExec {
         let k = self.ports.len() + 1;
         self.cfgs.push(PortCfgLite { p2p, master_only: w[6] == "1" });
         let r = guarded(|| {
-            let port = inst.add_port(cfg, k, RecClock { port: k }, ConstRng);
+            let port = inst.add_port(cfg, k, RecClock { port: k }, SeqRng(k as u64));
             let (running, actions) = port.end_bmca();
             let a = collect(k, actions);
             (running, a)
@@ -846,7 +903,7 @@ pub fn fwd_from_text(item: &str) -> Option<ForwardedTLV<'static>> {
                 delay_asymmetry: Duration::ZERO,
                 minor_ptp_version: PtpMinorVersion::One,
             };
-            let (p, _) = inst.add_port(cfg, 0usize, RecClock { port: 0 }, ConstRng).end_bmca();
+            let (p, _) = inst.add_port(cfg, 0usize, RecClock { port: 0 }, SeqRng(0)).end_bmca();
             *s = Some(p);
         }
         let p = s.as_mut().unwrap();
@@ -865,6 +922,16 @@ pub fn fwd_from_text(item: &str) -> Option<ForwardedTLV<'static>> {
 
 impl Executor for InstExec {
     fn exec(&mut self, line: &str) -> String {
+        RAW_TIMERS.with(|r| r.borrow_mut().clear());
+        let obs = self.exec_inner(line);
+        let raw = RAW_TIMERS.with(|r| std::mem::take(&mut *r.borrow_mut()));
+        LAST_RAW_TIMERS.with(|l| *l.borrow_mut() = raw);
+        obs
+    }
+}
+
+impl InstExec {
+    fn exec_inner(&mut self, line: &str) -> String {
         // tokens starting with '#' are annotations for the checker (e.g. `#ins:<class>`)
         let w: Vec<&str> = line.split_whitespace().filter(|t| !t.starts_with('#')).collect();
         if w.first() == Some(&"ACC") {
